@@ -289,6 +289,9 @@ pub struct DiagnosticSpans {
     pub arity: usize,
 }
 const N_CROSS: u64 = 12;
+/// leading blank lines of the row-shifted family (arity 3): multi-line spans then cross rows 9 -> 10 and 99 -> 100
+const LEADS: [usize; 22] = [0, 1, 2, 3, 4, 5, 6, 7, 8, 9, 10, 11, 12, 93, 94, 95, 96, 97, 98, 99, 100, 101];
+const NEWLINES: &str = "\n\n\n\n\n\n\n\n\n\n\n\n\n\n\n\n\n\n\n\n\n\n\n\n\n\n\n\n\n\n\n\n\n\n\n\n\n\n\n\n\n\n\n\n\n\n\n\n\n\n\n\n\n\n\n\n\n\n\n\n\n\n\n\n\n\n\n\n\n\n\n\n\n\n\n\n\n\n\n\n\n\n\n\n\n\n\n\n\n\n\n\n\n\n\n\n\n\n\n\n\n\n\n\n";
 
 /// Programs over two files of one module whose diagnostics carry notes that point into the OTHER file.
 fn cross_file_program(k: u64) -> (MFile, MFile) {
@@ -436,6 +439,9 @@ fn named_element_extent(r: &Rendered, message: &str) -> Option<(Loc, Loc)> {
 
 impl Family for DiagnosticSpans {
     fn name(&self) -> String {
+        if self.arity == 3 {
+            return format!("diagnostic-spans-and-snippets/row-shifted: 4 sources with spans over several lines behind {} numbers of leading blank lines (the spans cross rows 9 -> 10 and 99 -> 100: the width of the line-number gutter changes inside the snippet)", LEADS.len());
+        }
         if self.arity == 0 {
             return format!("diagnostic-spans-and-snippets/cross-file notes: {N_CROSS} programs over two files of one module whose diagnostics carry notes into the other file (redefinitions, redeclared inherited operations, containment / inheritance / alias cycles, deprecated uses) x both file orders x 7 layouts");
         }
@@ -444,6 +450,9 @@ impl Family for DiagnosticSpans {
     fn len(&self) -> u64 {
         if self.arity == 0 {
             return N_CROSS * 2 * 7;
+        }
+        if self.arity == 3 {
+            return 4 * LEADS.len() as u64;
         }
         (N_SOURCES as u64).pow(self.arity as u32) * 7
     }
@@ -650,6 +659,15 @@ impl Family for DiagnosticSpans {
 }
 impl DiagnosticSpans {
     fn decode(&self, idx: u64) -> (crate::model::ast::Program, Layout, Vec<usize>) {
+        if self.arity == 3 {
+            // sources with multi-line spans: the wrapped tag messages (43, 44), the containment ring (37), the misplaced tags (33)
+            let k = [43usize, 44, 37, 33][(idx % 4) as usize];
+            let n = LEADS[(idx / 4) as usize];
+            let mut f = MFile::module("M");
+            f.defs.extend(diag_source(k, 0));
+            let layout = Layout { lead: &NEWLINES[..n], ..Layout::uniform(if idx % 8 < 4 { Sep::Space } else { Sep::Newline }, Commas::None) };
+            return (vec![f, crate::model::gen::lib_file()], layout, vec![k, n]);
+        }
         let li = (idx % 7) as usize;
         let mut r = idx / 7;
         if self.arity == 0 {
@@ -671,7 +689,7 @@ impl DiagnosticSpans {
 }
 
 pub fn families(tier: &str) -> Vec<Box<dyn Family>> {
-    let mut v: Vec<Box<dyn Family>> = vec![Box::new(DiagnosticSpans { arity: 1 }), Box::new(DiagnosticSpans { arity: 2 }), Box::new(DiagnosticSpans { arity: 0 })];
+    let mut v: Vec<Box<dyn Family>> = vec![Box::new(DiagnosticSpans { arity: 1 }), Box::new(DiagnosticSpans { arity: 2 }), Box::new(DiagnosticSpans { arity: 0 }), Box::new(DiagnosticSpans { arity: 3 })];
     v.push(Box::new(Positions { inner: Box::new(NonAsciiDocs) }));
     v.extend(crate::model::families::program_families(tier).into_iter().map(|f| Box::new(Positions { inner: f }) as Box<dyn Family>));
     v
